@@ -33,8 +33,8 @@ func init() {
 			"goroutine switches happen only at synchronisation operations",
 		},
 		Units:          units,
-		QuickBudget:    80,
-		ThoroughBudget: 1200,
+		QuickBudget:    240,
+		ThoroughBudget: 1800,
 	})
 }
 
@@ -56,6 +56,15 @@ type Params struct {
 	// the writer (which never reads them): the writer's session receives data and sends
 	// acknowledgements while its own data and its close are still queued
 	CounterFlow int
+	// StartDelay: the reader's application performs its first Read this long after the session
+	// was opened (the writer has written everything, and possibly closed, by then)
+	StartDelay time.Duration
+	// Pause: the reader reads a first few bytes and then pauses this long before it reads the
+	// rest (longer than the 5 s housekeeping tick of the underlay)
+	Pause time.Duration
+	// Pinger: a second proxy connection of the same client exchanges a byte every second, so
+	// that the underlay shared with the observed session stays busy
+	Pinger bool
 }
 
 func (p Params) String() string {
@@ -63,7 +72,7 @@ func (p Params) String() string {
 	if p.UDP {
 		t = fmt.Sprintf("udp mtu=%d lat=%v faults=%v", p.MTU, p.Latency, p.Faults)
 	}
-	return fmt.Sprintf("%s sizes=%v closer-is-server=%v tp=%s maxread=%d nowait=%v rb=%d slow-reader=%v raw-mux=%v seed=%d", t, p.Sizes, p.ServerSide, p.TP, p.MaxRead, p.NoWait, p.RB, p.SlowReader, p.Raw, p.Seed) + fmt.Sprintf(" counter-flow=%d", p.CounterFlow)
+	return fmt.Sprintf("%s sizes=%v closer-is-server=%v tp=%s maxread=%d nowait=%v rb=%d slow-reader=%v raw-mux=%v seed=%d", t, p.Sizes, p.ServerSide, p.TP, p.MaxRead, p.NoWait, p.RB, p.SlowReader, p.Raw, p.Seed) + fmt.Sprintf(" counter-flow=%d start-delay=%v pause=%v pinger=%v", p.CounterFlow, p.StartDelay, p.Pause, p.Pinger)
 }
 
 var verbose = false
@@ -127,9 +136,17 @@ func exec(p Params, pats []xfer.NamedTP, ctl *explore.Ctl) explore.Result {
 				rb = 4096
 			}
 			buf := make([]byte, rb)
+			if p.StartDelay > 0 {
+				vsched.Sleep(p.StartDelay)
+			}
+			paused := false
 			for {
 				if p.SlowReader {
 					vsched.Sleep(time.Millisecond)
+				}
+				if p.Pause > 0 && got > 0 && !paused {
+					paused = true
+					vsched.Sleep(p.Pause)
 				}
 				m, err := rd.Read(buf)
 				if m > 0 {
@@ -157,6 +174,41 @@ func exec(p Params, pats []xfer.NamedTP, ctl *explore.Ctl) explore.Result {
 					return
 				}
 			}
+		}
+		if p.Pinger {
+			// the pinger's connection is opened first, so that the observed session shares an
+			// already established underlay with it; the server echoes its bytes
+			var pg world.Group
+			var ps net.Conn
+			pg.Go("srv-ping-accept", "server", func() { ps, _, _ = w.Accept() })
+			pc, err := w.Dial(1001)
+			pg.Wait()
+			if err != nil || ps == nil {
+				result = "pinger-setup-failed"
+				return
+			}
+			w.Go("srv-ping", "server", func() {
+				b := make([]byte, 1)
+				for {
+					if _, err := ps.Read(b); err != nil && !world.IsTimeout(err) {
+						return
+					}
+					ps.Write(b)
+				}
+			})
+			w.Go("cli-ping", "client", func() {
+				b := make([]byte, 1)
+				for i := 0; i < 40; i++ {
+					if _, err := pc.Write([]byte{byte(i)}); err != nil {
+						return
+					}
+					pc.SetReadDeadline(w.S.Now().Add(3 * time.Second))
+					pc.Read(b)
+					vsched.Sleep(time.Second)
+				}
+				pc.Close()
+			})
+			defer func() { pc.Close(); ps.Close() }()
 		}
 		g.Go("srv", "server", func() {
 			var c net.Conn
@@ -371,6 +423,57 @@ func units(tier string) []runner.Unit {
 			run(u, p, explore.Bound{})
 		}})
 	}
+	// a reader that starts (or resumes) late: thousands of small writes pile up in every
+	// receive structure of its session before the close arrives; and a reader that pauses
+	// beyond the underlay's 5 s housekeeping tick while the underlay stays busy
+	for _, udp := range []bool{false, true} {
+		for _, ss := range []bool{false, true} {
+			udp, ss := udp, ss
+			seed := 5000
+			if udp {
+				seed += 100
+			}
+			if ss {
+				seed += 50
+			}
+			for k, sz := range [][]int{many(4500, 4), many(5000, 1), append(many(4400, 3), 2000)} {
+				if udp && k > 0 {
+					continue // on UDP the receive window keeps the queues from filling; one size is enough
+				}
+				k, sz := k, sz
+				us = append(us, runner.Unit{Name: fmt.Sprintf("stalled-reader-udp=%v-server-writes=%v-%d", udp, ss, k), Cost: 5, Run: func(u *runner.U) {
+					p := Params{UDP: udp, MTU: 1400, Latency: 5 * time.Millisecond, Sizes: sz, ServerSide: ss, TP: "nil", Seed: int64(seed + k), RB: []int{4096, 64, 65536}[k], StartDelay: 3 * time.Second}
+					run(u, p, explore.Bound{})
+					if udp {
+						return
+					}
+					p.StartDelay, p.SlowReader = 0, true
+					run(u, p, explore.Bound{})
+				}})
+			}
+			if !udp {
+				// exactly as many segments as the receive structures of a session hold (queue 4096,
+				// channel 256, one in the input loop), one less and one more, in front of the close
+				for _, n := range []int{4095, 4096, 4097, 4352, 4353, 4354} {
+					n := n
+					us = append(us, runner.Unit{Name: fmt.Sprintf("fill-receive-structures-server-writes=%v-%d", ss, n), Cost: 4, Run: func(u *runner.U) {
+						p := Params{MTU: 1400, Sizes: many(n, 4), ServerSide: ss, TP: "nil", Seed: int64(seed + n), RB: 4096, StartDelay: 3 * time.Second}
+						run(u, p, explore.Bound{})
+					}})
+				}
+			}
+			us = append(us, runner.Unit{Name: fmt.Sprintf("paused-reader-udp=%v-server-writes=%v", udp, ss), Cost: 3, Run: func(u *runner.U) {
+				i := seed + 10
+				for _, pause := range []time.Duration{4 * time.Second, 6 * time.Second, 11 * time.Second, 16 * time.Second} {
+					for _, pinger := range []bool{false, true} {
+						p := Params{UDP: udp, MTU: 1400, Latency: 5 * time.Millisecond, Sizes: []int{1000, 1000, 1000}, ServerSide: ss, TP: "nil", Seed: int64(i), RB: 4, Pause: pause, Pinger: pinger}
+						i++
+						run(u, p, explore.Bound{})
+					}
+				}
+			}})
+		}
+	}
 	// UDP: every single fault (quick) / pair of faults (thorough) on the datagrams of the run
 	for bi, base := range []Params{
 		{Sizes: []int{1}, TP: "nil", Latency: 5 * time.Millisecond},
@@ -393,4 +496,12 @@ func units(tier string) []runner.Unit {
 		run(u, Params{UDP: true, MTU: 1400, Latency: 5 * time.Millisecond, Sizes: []int{2000}, TP: "nil", Seed: 300}, explore.Bound{Ds: 1})
 	}})
 	return us
+}
+
+func many(n, size int) []int {
+	out := make([]int, n)
+	for i := range out {
+		out[i] = size
+	}
+	return out
 }
